@@ -52,7 +52,7 @@ pub fn core_cfgs() -> Vec<Cfg> {
 }
 
 pub fn context(zone_name: &str, mult: f32) -> Model {
-    let mut m = Model { meta: meta(zone(zone_name)), ..Default::default() };
+    let mut m = model_with_meta(meta(zone(zone_name)));
     let wc = std_cons(&mut m);
     std_wincons(&mut m);
     let mut si = space("SI", SpaceType::CONDITIONED, true, 3.0);
@@ -79,7 +79,7 @@ pub fn add_element(m: &mut Model, c: &Cfg, name: &str, k: usize) {
     };
     let w = wall(name, BOUNDS[c.bounds], cons, sp, nt, g);
     if c.ovr == 1 {
-        m.overrides.walls.insert(w.id, WallPropsOverrides { u_value: Some(0.33) });
+        m.overrides.walls.insert(w.id, WallPropsOverrides { u_value: Some(0.33), ..Default::default() });
     }
     let wid = w.id;
     m.walls.push(w);
@@ -89,7 +89,7 @@ pub fn add_element(m: &mut Model, c: &Cfg, name: &str, k: usize) {
         2 => m.windows.push(window(&format!("{name}_v"), uid("missing-wincons"), wid, Some([1.0, 1.0]), 1.5, 1.2, 0.0)),
         3 => {
             let v = window(&format!("{name}_v"), uid("winc"), wid, Some([1.0, 1.0]), 1.5, 1.2, 0.0);
-            m.overrides.windows.insert(v.id, WinPropsOverrides { u_value: Some(1.1), f_shobst: Some(0.5) });
+            m.overrides.windows.insert(v.id, WinPropsOverrides { u_value: Some(1.1), f_shobst: Some(0.5), ..Default::default() });
             m.windows.push(v);
         }
         5 => {
@@ -106,7 +106,7 @@ pub fn add_element(m: &mut Model, c: &Cfg, name: &str, k: usize) {
         _ => {
             // user override on a window whose construction does not resolve
             let v = window(&format!("{name}_v"), uid("missing-wincons"), wid, Some([1.0, 1.0]), 1.5, 1.2, 0.0);
-            m.overrides.windows.insert(v.id, WinPropsOverrides { u_value: Some(1.3), f_shobst: None });
+            m.overrides.windows.insert(v.id, WinPropsOverrides { u_value: Some(1.3), f_shobst: None, ..Default::default() });
             m.windows.push(v);
         }
     }
@@ -231,7 +231,7 @@ pub fn run08(ctx: &Ctx) -> i32 {
     for (ki, k) in kinds.iter().enumerate() {
         for (li, l) in ls.iter().enumerate() {
             for (pi, p) in psis.iter().enumerate() {
-                let tb = ThermalBridge { id: uid(&format!("tb-{ki}-{li}-{pi}")), name: "tb".into(), kind: *k, l: *l, psi: *p };
+                let tb = ThermalBridge { id: uid(&format!("tb-{ki}-{li}-{pi}")), name: "tb".into(), kind: *k, l: *l, psi: *p, ..Default::default() };
                 let mut m = model_single(&cfg_of(&[0, 1, 0, 0, 0, 0, 0, 1]));
                 m.thermal_bridges.push(tb.clone());
                 all.thermal_bridges.push(tb);
@@ -396,17 +396,17 @@ fn c10_model(zone_name: &str, az: f32, tilt: f32, fsh: usize, cons: usize, mult:
     let c = if cons == 0 { uid("winc") } else { uid("missing-wincons") };
     let v = window("X_v", c, wid, if fsh == 1 { Some([1.0, 1.0]) } else { None }, 1.5, 1.2, 0.0);
     if fsh == 0 {
-        m.overrides.windows.insert(v.id, WinPropsOverrides { u_value: None, f_shobst: Some(0.37) });
+        m.overrides.windows.insert(v.id, WinPropsOverrides { u_value: None, f_shobst: Some(0.37), ..Default::default() });
     }
     if u_only_entry {
         // an override entry that fixes only the U-value: the obstruction factor is still the computed one
-        m.overrides.windows.insert(v.id, WinPropsOverrides { u_value: Some(2.0), f_shobst: None });
+        m.overrides.windows.insert(v.id, WinPropsOverrides { u_value: Some(2.0), f_shobst: None, ..Default::default() });
     }
 
     m.windows.push(v);
     // a shade in front so that the computed factor is not trivially 1
     if fsh == 1 {
-        m.shades.push(Shade { id: uid("sh"), name: "sh".into(), geometry: geom(0.0, 0.0, Some([15.0, -8.0, 3.5]), rect(14.0, 16.0)) });
+        m.shades.push(Shade { id: uid("sh"), name: "sh".into(), geometry: geom(0.0, 0.0, Some([15.0, -8.0, 3.5]), rect(14.0, 16.0)), ..Default::default() });
     }
     m
 }
@@ -548,7 +548,7 @@ fn scale_model(m: &Model, s: f32) -> Model {
 
 /// generated building for aggregates: per space (kind, inside, mult, floors{1,2}, ceiling{none, own roof, other's floor above})
 fn agg_model(specs: &[usize]) -> Model {
-    let mut m = Model { meta: meta(zone("D3")), ..Default::default() };
+    let mut m = model_with_meta(meta(zone("D3")));
     let wc = std_cons(&mut m);
     m.cons.wallcons.push(wallcons("slab", &[(uid("conc"), 0.25)]));
     m.meta.global_ventilation_l_s = Some(25.0);
@@ -623,6 +623,29 @@ pub fn run11(ctx: &Ctx) -> i32 {
             if let Some(ind) = check_model(ctx, &m, &["tenv", "areas"], &case, acc, "") {
                 acc.nontriv += 1;
                 acc.outcomes.insert(hash64(&(ind.area_ref.to_bits(), ind.vol_env_net.to_bits(), ind.compactness.to_bits())));
+                // the same elements stored in another order (the walls of one space no longer next to each other, spaces
+                // reversed): every 5th model
+                if i % 5 == 0 && k >= 2 {
+                    let mut q = m.clone();
+                    let mut groups: Vec<Vec<Wall>> = vec![];
+                    for w in q.walls.drain(..) {
+                        match groups.iter_mut().find(|g| g[0].space == w.space) {
+                            Some(g) => g.push(w),
+                            None => groups.push(vec![w]),
+                        }
+                    }
+                    let longest = groups.iter().map(|g| g.len()).max().unwrap_or(0);
+                    for r in 0..longest {
+                        for g in &groups {
+                            if let Some(w) = g.get(r) {
+                                q.walls.push(w.clone());
+                            }
+                        }
+                    }
+                    q.spaces.reverse();
+                    let case2 = || json!({"part": "aggregates, walls stored round-robin across spaces", "specs": specs});
+                    check_model(ctx, &q, &["tenv", "areas"], &case2, acc, "");
+                }
                 // (c) scaling on every 7th
                 if i % 7 == 0 {
                     for s in [0.25f32, 0.5, 2.0, 4.0] {
@@ -667,7 +690,7 @@ pub fn run11(ctx: &Ctx) -> i32 {
     ctx.sample(json!({"part": "aggregates", "specs": [17, 93]}));
     ctx.finish(
         "model_checking",
-        &format!("(a) envelope membership + areas/volumes/compactness/ventilation-rate on the 4608 single-element configurations of C08; (b) generated buildings: every combination of 1..{} spaces x (kind 3 x inside 2 x multiplier{{1,2,.5}} x floors{{1,2}} x ceiling{{none, own roof, floor of the space above}}) = 108^k models; (c) every 7th of those re-scaled by s in {{1/4,1/2,2,4}} (areas x s^2, volumes x s^3, compactness x s within the 0.01 rounding quantum); (d) {} f32 angles for Tilt/Orientation classification and the parser-vs-model tilt classes; shipped models; non-trivial = indicators computed", maxsp, swept),
+        &format!("(a) envelope membership + areas/volumes/compactness/ventilation-rate on the 4608 single-element configurations of C08; (b) generated buildings: every combination of 1..{} spaces x (kind 3 x inside 2 x multiplier{{1,2,.5}} x floors{{1,2}} x ceiling{{none, own roof, floor of the space above}}) = 108^k models, every 5th of the multi-space ones also with the walls stored round-robin across spaces and the spaces reversed; (c) every 7th of those re-scaled by s in {{1/4,1/2,2,4}} (areas x s^2, volumes x s^3, compactness x s within the 0.01 rounding quantum); (d) {} f32 angles for Tilt/Orientation classification and the parser-vs-model tilt classes; shipped models; non-trivial = indicators computed", maxsp, swept),
         true,
         json!({"configs": n, "aggregate_models": total_b, "angles_swept": swept}),
     )
